@@ -87,7 +87,10 @@ fn run_one(s: &Scn, len: usize) -> (Finished, bool, String) {
     };
     sb.write("input.bin", &input);
     if s.prior_output {
-        sb.write("output.bin", &input);
+        // (sparse, and larger than the input: what it holds does not matter, only that it is big)
+        if let Ok(f) = std::fs::File::create(sb.dir.join("output.bin")) {
+            let _ = f.set_len((len as u64).max(BASE_LEN as u64) * 2);
+        }
     }
     drop(input);
     let mut args: Vec<String> = match s.op {
@@ -154,7 +157,7 @@ impl Family for B7 {
     }
     fn budget(&self, tier: Tier, _p: &str) -> u64 {
         match tier {
-            Tier::Quick => 16,
+            Tier::Quick => 17,
             Tier::Thorough => 128,
         }
     }
@@ -167,8 +170,13 @@ impl Family for B7 {
             2 => Op::PassEncrypt,
             _ => Op::PassDecrypt,
         };
-        let sizes: &[usize] = if tier == Tier::Quick { &[24 << 20, 48 << 20] } else { &[16 << 20, 64 << 20, 128 << 20, 256 << 20] };
-        // thorough tier: a few sparse multi-GiB encryptions
+        // every kestrel process legitimately peaks at about 35 MiB (one scrypt evaluation, 32 MiB): inputs
+        // must be well above that for buffering in proportion to the input to show
+        let sizes: &[usize] = if tier == Tier::Quick { &[96 << 20, 128 << 20] } else { &[64 << 20, 128 << 20, 256 << 20] };
+        // a sparse multi-GiB encryption (one in the quick tier, a few in the thorough tier)
+        if tier == Tier::Quick && idx == 16 {
+            return Scn { op: Op::PassEncrypt, in_file: true, out_opt: true, len: 0, seed: rng.next_u64(), prior_output: false, incremental: false, sparse_gib: 5 };
+        }
         if tier == Tier::Thorough && idx >= 16 && idx < 20 {
             return Scn { op: if idx % 2 == 0 { Op::Encrypt } else { Op::PassEncrypt }, in_file: true, out_opt: true, len: 0, seed: rng.next_u64(), prior_output: false, incremental: false, sparse_gib: 8 };
         }
